@@ -116,6 +116,10 @@ def evaluate(pm, cls, mname, kind, depth=0, swapped=False):
             if isinstance(s, ast.If):
                 ks = _test_kinds(s.test, opname)
                 if ks is None:
+                    # a data-dependent test inside a kind branch: harmless for the dispatch when neither arm leaves the
+                    # method (it only prepares locals); otherwise the outcome depends on values and is not decided here
+                    if not any(isinstance(x, (ast.Return, ast.Raise)) for x in ast.walk(s)):
+                        continue
                     raise AnalysisError(f"{cls}.{mname}: dispatch test not understood: {norm(s.test)[:80]}")
                 r = run(s.body) if kind in ks else run(s.orelse)
                 if r is not None:
@@ -745,6 +749,41 @@ def r_raw2(E):
                     res.samples.append({"function": q, "operands": texts, "verdict": "aligned, one unit"})
             if not checked:
                 res.undecided.append(f"{q}: could not pair the definitions of {names}")
+    # positional arithmetic between the raw arrays of two different series (x.value[...].values + y.value[...].values)
+    def array_root(e):
+        """name of the explainable whose frame's raw array this expression is, or None"""
+        seen_view = False
+        while True:
+            if isinstance(e, ast.Attribute) and e.attr in ("values", "data", "_data", "magnitude"):
+                seen_view = True
+                e = e.value
+            elif isinstance(e, ast.Call) and isinstance(e.func, ast.Attribute) and e.func.attr == "to_numpy":
+                seen_view = True
+                e = e.func.value
+            elif isinstance(e, ast.Subscript):
+                e = e.value
+            elif isinstance(e, ast.Attribute) and e.attr in ("pint",):
+                e = e.value
+            elif isinstance(e, ast.Attribute) and e.attr == "value" and isinstance(e.value, ast.Name):
+                return e.value.id if seen_view else None
+            else:
+                return None
+    for suffix in (EO, "core/usage/compute_nb_occurrences_in_parallel.py"):
+        rel, tree = pm.module_tree(suffix)
+        for n in ast.walk(tree):
+            if isinstance(n, ast.BinOp) and isinstance(n.op, (ast.Add, ast.Sub, ast.Mult, ast.Div)):
+                a, b = array_root(n.left), array_root(n.right)
+                if a and b and a != b:
+                    res.instances += 1
+                    fn = n
+                    while fn is not None and not isinstance(fn, ast.FunctionDef):
+                        fn = getattr(fn, "_parent", None)
+                    q = fn.name if fn is not None else "<module>"
+                    res.findings.append(Finding(
+                        "R-RAW2", f"{rel}:{q} :: {norm(n)[:90]} positional",
+                        f"{q}: `{norm(n)[:70]}` combines the raw arrays of two series ({a}, {b}) element by position: "
+                        f"series that do not cover exactly the same hours (a gap, a daylight-saving change, another time "
+                        f"window of equal length) are paired hour i with hour i", rel, n.lineno, q))
     res.floor = 2
     return res
 
@@ -781,6 +820,21 @@ def r_summary(E):
             if s["returns_self"] and cls != "EmptyExplainableObject" and len(ret_self) != len(rets):
                 res.findings.append(Finding("R-SUMMARY", f"{where} returns-self",
                                             f"{where} no longer returns self on every path", path, fn.lineno, where))
+            if want_inplace and stores:
+                # every return path passes through the store: no early `return self` that skips the conversion
+                st_nodes = [n for n, who in _stores_into_value(fn)]
+                first_store = min(n.lineno for n in st_nodes)
+                nested_store = any(isinstance(getattr(n, "_parent", None), (ast.If, ast.For, ast.While, ast.Try))
+                                   for n in st_nodes)
+                early = [r for r in rets if r.lineno < first_store]
+                if early or nested_store:
+                    res.findings.append(Finding(
+                        "R-SUMMARY", f"{where} conditional in-place update",
+                        f"{where} is summarised as an unconditional in-place {'unit conversion' if s['inplace'] == 'unit' else 'update'} "
+                        f"but has a path that returns without performing it"
+                        f"{' (`' + norm(early[0].parent if False else early[0])[:40] + '` before the store)' if early else ''}: "
+                        f"callers that rely on the result being in the requested unit (`.to(u.dimensionless)` before "
+                        f"ceil / magnitude) read a value in another unit", path, fn.lineno, where))
             if "args" in s["parents"]:
                 # every return path must record the explainable argument: a constructor (checked by R-OPPAR) or a
                 # delegation that hands self over to the argument's own method
@@ -801,4 +855,45 @@ def r_summary(E):
                         f"an edit of it is not propagated (the analyser's summary, and R-PROV with it, assume it is)",
                         path, r.lineno, where))
     res.floor = 25
+    return res
+
+
+DERIVED_ACCESSORS = {("ExplainableHourlyQuantities", "unit"), ("ExplainableQuantity", "magnitude"),
+                     ("ExplainableHourlyQuantities", "value_as_float_list")}
+
+
+@rule("R-DERIVED")
+def r_derived(E):
+    pm = E.pm
+    res = RuleResult("R-DERIVED", "derived accessors of the explainable classes (unit, magnitude) are computed from "
+                                  "self.value on every call: `to()` converts the value in place and several objects can "
+                                  "share one frame, so a cached copy goes stale")
+    for cls in CLASSES + ("ExplainableObject",):
+        path = pm.path_of(cls)
+        for fn in pm.own_methods(cls):
+            if (cls, fn.name) not in DERIVED_ACCESSORS:
+                continue
+            res.instances += 1
+            reads = {n.attr for n in ast.walk(fn) if isinstance(n, ast.Attribute) and isinstance(n.value, ast.Name)
+                     and n.value.id == "self"}
+            if reads != {"value"}:
+                res.findings.append(Finding(
+                    "R-DERIVED", f"{cls}.{fn.name} reads {sorted(reads - {'value'})}",
+                    f"{cls}.{fn.name} is computed from {sorted(reads)} instead of self.value alone: after an in-place "
+                    f"`.to()` on an object sharing the frame (x + empty, sum([x]), a logical-dependency copy) it returns "
+                    f"the old unit and negate/abs/ceil/round/np_compared_with label converted magnitudes with it", path,
+                    fn.lineno, f"{cls}.{fn.name}"))
+        # no cached copy of it written anywhere in the class
+        for fn in pm.own_methods(cls):
+            for n in ast.walk(fn):
+                if isinstance(n, ast.Assign):
+                    for t in n.targets:
+                        if isinstance(t, ast.Attribute) and isinstance(t.value, ast.Name) and t.value.id == "self" \
+                                and t.attr in ("_unit", "_magnitude", "_units"):
+                            res.instances += 1
+                            res.findings.append(Finding("R-DERIVED", f"{cls}.{fn.name} caches {t.attr}",
+                                                        f"{cls}.{fn.name} stores self.{t.attr}: a cached unit goes stale "
+                                                        f"when a frame-sharing object is converted in place", path,
+                                                        n.lineno, f"{cls}.{fn.name}"))
+    res.floor = 2
     return res
